@@ -2,6 +2,7 @@ import SimilarVerif.Lemmas.Compact
 import SimilarVerif.Props.C01
 import SimilarVerif.Lemmas.Capture
 import SimilarVerif.Lemmas.MyersTotal
+import SimilarVerif.Lemmas.CaptureExact
 /-!
 # C11 — every captured op carries exact positions in both sequences
 
@@ -101,5 +102,81 @@ theorem capture_myers_exact_repaired (E : Env) (os oe ns ne : Nat) (w : World)
     have h2 : ops2.map Call.op ++ [Call.finish] = raw.map Call.op ++ [Call.finish] := ht.symm.trans rfl
     exact hinj _ _ (List.append_cancel_right h2)
   exact this ▸ hx2
+
+end SimilarVerif.C11
+
+namespace SimilarVerif.C11
+open SimilarVerif Spec
+
+/-- (d) LCS never calls `replace`; its raw stream is total, valid and exact for EVERY clock -/
+theorem lcs_raw_exact_noReplace : type_of% @CaptureExact.lcs_raw_exact_noReplace :=
+  @CaptureExact.lcs_raw_exact_noReplace
+
+/-- **end to end, LCS with the repaired swap** — total, every clock (the LCS fallback after an expired
+deadline, `delete` of the rest then `insert` of the rest, carries the position AFTER the delete): every
+captured op carries exact positions -/
+theorem capture_lcs_exact_repaired (E : Env) (os oe ns ne : Nat) (w : World)
+    (ho : os ≤ oe) (hn : ns ≤ ne) (hb : InBounds E os oe ns ne) :
+    ∃ ops w', captureDiff .lcs E true os oe ns ne w = .ok (ops, w') ∧
+      Walk (eqB E) os ns ops oe ne ∧ Exact os ns ops ∧ Alternating ops :=
+  CaptureExact.capture_lcs_exact_repaired E os oe ns ne w ho hn hb
+
+/-- (d) Patience raw streams without a deadline are exact and contain no `replace` call: the delete / insert
+calls come from the nested Myers runs (exact without deadline), the equal calls are its own (exact), and no
+hook in the stack installs a deadline -/
+theorem patience_raw_exact : type_of% @PatienceX.patience_exact := @PatienceX.patience_exact
+theorem patience_raw_exact_total : type_of% @CaptureExact.patience_raw_exact_noReplace :=
+  @CaptureExact.patience_raw_exact_noReplace
+
+/-- **end to end, Patience with the repaired swap, no deadline** — total -/
+theorem capture_patience_exact_repaired (E : Env) (os oe ns ne : Nat) (w : World)
+    (ho : os ≤ oe) (hn : ns ≤ ne) (hb : InBounds E os oe ns ne) (hs : CaptureNF.SameSideBounds E os oe ns ne)
+    (hclk : w.clock = none) :
+    ∃ ops w', captureDiff .patience E true os oe ns ne w = .ok (ops, w') ∧
+      Walk (eqB E) os ns ops oe ne ∧ Exact os ns ops ∧ Alternating ops :=
+  CaptureExact.capture_patience_exact_repaired E os oe ns ne w ho hn hb hs hclk
+
+/-- **all three algorithms at once**: repaired swap, no deadline, in-bounds ranges — `capture_diff` returns and
+every captured op carries exact positions in both sequences -/
+theorem capture_exact_repaired_total (alg : Alg) (E : Env) (os oe ns ne : Nat) (w : World)
+    (ho : os ≤ oe) (hn : ns ≤ ne) (hb : InBounds E os oe ns ne)
+    (hp : alg = .patience → CaptureNF.SameSideBounds E os oe ns ne) (hclk : w.clock = none) :
+    ∃ ops w', captureDiff alg E true os oe ns ne w = .ok (ops, w') ∧
+      Walk (eqB E) os ns ops oe ne ∧ Exact os ns ops ∧ Alternating ops :=
+  CaptureExact.capture_exact_repaired_total alg E os oe ns ne w ho hn hb hp hclk
+
+/-- **negative side** (why "no deadline" for Myers and Patience): with an expired deadline the raw Myers
+fallback is `delete; insert` with the insert carrying the old position BEFORE its delete — allowed by C01's
+`Carried`, but not `Exact` -/
+theorem expired_deadline_raw_not_exact :
+    (rawTrace .myers (Env.ofSeqs #[0, 1] #[2, 3]) 0 2 0 2 { clock := some 0 }).map (·.1.trace) =
+      .ok [.op (.delete 0 2 0), .op (.insert 0 0 2), .finish] ∧
+    Carried 0 0 [.delete 0 2 0, .insert 0 0 2] ∧ ¬ Exact 0 0 [.delete 0 2 0, .insert 0 0 2] :=
+  ⟨CaptureExact.expired_raw_myers, CaptureExact.expired_raw_carried, CaptureExact.expired_raw_not_exact⟩
+
+/-- non-vacuity: the hypotheses of the total statements are satisfiable (`[0,1,2]` vs `[0,2,2]`, no deadline) -/
+example (alg : Alg) :=
+  capture_exact_repaired_total alg (Env.ofSeqs #[0, 1, 2] #[0, 2, 2]) 0 3 0 3 {} (by omega) (by omega)
+    (by
+      intro i j _ hi _ hj
+      have : i = 0 ∨ i = 1 ∨ i = 2 := by omega
+      have : j = 0 ∨ j = 1 ∨ j = 2 := by omega
+      rcases ‹i = 0 ∨ i = 1 ∨ i = 2› with rfl | rfl | rfl <;>
+        rcases ‹j = 0 ∨ j = 1 ∨ j = 2› with rfl | rfl | rfl <;> decide)
+    (fun _ => by
+      constructor <;>
+      · intro i j _ hi _ hj
+        have : i = 0 ∨ i = 1 ∨ i = 2 := by omega
+        have : j = 0 ∨ j = 1 ∨ j = 2 := by omega
+        rcases ‹i = 0 ∨ i = 1 ∨ i = 2› with rfl | rfl | rfl <;>
+          rcases ‹j = 0 ∨ j = 1 ∨ j = 2› with rfl | rfl | rfl <;> decide)
+    rfl
+
+#print axioms lcs_raw_exact_noReplace
+#print axioms capture_lcs_exact_repaired
+#print axioms patience_raw_exact
+#print axioms capture_patience_exact_repaired
+#print axioms capture_exact_repaired_total
+#print axioms expired_deadline_raw_not_exact
 
 end SimilarVerif.C11
